@@ -4,6 +4,9 @@
 // framework (rowan tree edited through &self); everything verified on top of this file is relative
 // to that assumption, and comments / formatting of the paragraph are outside the model.
 // ---------------------------------------------------------------------------------------------
+/// what the strict lossless reader shows for a text: its paragraphs as field lists, or None when it rejects the text
+pub uninterp spec fn lossless_view(text: Seq<char>) -> Option<Seq<Seq<(Seq<char>, Seq<char>)>>>;
+
 pub mod deb822_lossless {
     use super::*;
 
@@ -65,9 +68,11 @@ pub mod deb822_lossless {
             ensures r@.len() == self@.len(), forall|i: int| 0 <= i < r@.len() ==> (#[trigger] r@[i])@ == self@[i]
         { unimplemented!() }
 
-        /// strict reader: a function of the text (see C01/C03 for what it returns)
+        /// strict reader: a function of the text (C01/C03, unit deb822tree: the tree is parse_text(s), the views are
+        /// functions of the tree). `lossless_view(text)` names what it shows: None when it rejects the text.
         #[verifier::external_body]
         pub fn from_str(s: &str) -> (r: Result<Deb822, ParseError>)
+            ensures match r { Ok(d) => lossless_view(s@) == Some(d@), Err(_) => lossless_view(s@) is None }
         { unimplemented!() }
 
         #[verifier::external_body]
